@@ -561,3 +561,147 @@ func ConstIs(w *World, id, pkgSuffix, name, want, what string) []Result {
 	}
 	return []Result{OK(id, "REG", construct, 1, what)}
 }
+
+// PhiCoUpdate: the loop-carried values returned as results idxs of fn (phis of one loop header) are replaced on exactly
+// the same incoming edges — a "best so far" tuple is updated as a whole.
+func PhiCoUpdate(w *World, id, kind, fnName string, idxs []int, what string) []Result {
+	fn := w.Fn(fnName)
+	if fn == nil {
+		return anchorMissing(id, kind, fnName)
+	}
+	construct := kind + ":" + fnName + fmt.Sprintf(":co-update%v", idxs)
+	var phis []*ssa.Phi
+	for _, b := range fn.Blocks {
+		if len(b.Instrs) == 0 || (len(b.Preds) == 0 && b.Index != 0) {
+			continue
+		}
+		ret, ok := b.Instrs[len(b.Instrs)-1].(*ssa.Return)
+		if !ok {
+			continue
+		}
+		if len(phis) > 0 {
+			return []Result{one(id, kind, construct, Undecided, 0, w.Pos(fn.Pos()), "more than one return: idiom not recognised")}
+		}
+		for _, i := range idxs {
+			if i >= len(ret.Results) {
+				return []Result{one(id, kind, construct, Undecided, 0, w.InstrPos(ret), "result index out of range")}
+			}
+			p, ok := resolveSpilled(ret, ret.Results[i]).(*ssa.Phi)
+			if !ok {
+				return []Result{one(id, kind, construct, Undecided, 0, w.InstrPos(ret), fmt.Sprintf("result #%d is not a loop-carried value (idiom not recognised)", i))}
+			}
+			phis = append(phis, p)
+		}
+	}
+	if len(phis) < 2 {
+		return []Result{one(id, kind, construct, Undecided, 0, w.Pos(fn.Pos()), "no returned loop-carried tuple found")}
+	}
+	blk := phis[0].Block()
+	for _, p := range phis {
+		if p.Block() != blk {
+			return []Result{one(id, kind, construct, Undecided, 0, w.InstrPos(p), "the returned values are carried by different loops")}
+		}
+	}
+	var out []Result
+	n := 0
+	for e := range blk.Preds {
+		changed := 0
+		for _, p := range phis {
+			if p.Edges[e] != ssa.Value(p) {
+				changed++
+			}
+		}
+		if changed != 0 {
+			n++
+		}
+		if changed != 0 && changed != len(phis) {
+			last := blk.Preds[e].Instrs[len(blk.Preds[e].Instrs)-1]
+			out = append(out, one(id, kind, construct, Violated, n, w.InstrPos(last),
+				fmt.Sprintf("%s: on the loop edge from block %d only %d of the %d returned values are replaced — the tuple returned mixes values of different iterations", what, blk.Preds[e].Index, changed, len(phis))))
+		}
+	}
+	if n < 2 {
+		return []Result{one(id, kind, construct, Violated, n, w.Pos(fn.Pos()), "vacuous: the tuple is never updated inside the loop")}
+	}
+	if len(out) == 0 {
+		out = append(out, one(id, kind, construct, Discharged, n, w.Pos(fn.Pos()), what))
+	}
+	return out
+}
+
+// FreshMapUpdates: every map update / delete in fn (closures included) goes to a map created in fn itself
+// (make, composite literal, or the result of one of the copying helpers): fn never writes into a map it was handed.
+func FreshMapUpdates(w *World, id, kind, fnName string, min int, what string) []Result {
+	fn := w.Fn(fnName)
+	if fn == nil {
+		return anchorMissing(id, kind, fnName)
+	}
+	construct := kind + ":" + fnName + ":fresh-map-updates"
+	copier := regexp.MustCompile(`^(lo\.Assign|maps\.Clone|lo\.OmitBy|lo\.PickBy|lo\.MapValues|lo\.MapKeys|lo\.MapEntries|lo\.SliceToMap|lo\.Associate)\b`)
+	var fresh func(v ssa.Value, depth int) bool
+	fresh = func(v ssa.Value, depth int) bool {
+		if depth > 6 {
+			return false
+		}
+		switch x := v.(type) {
+		case *ssa.MakeMap:
+			return true
+		case *ssa.Call:
+			return copier.MatchString(w.CalleeName(x.Common()))
+		case *ssa.ChangeType:
+			return fresh(x.X, depth+1)
+		case *ssa.Phi:
+			for _, e := range x.Edges {
+				if e != v && !fresh(e, depth+1) {
+					return false
+				}
+			}
+			return true
+		case *ssa.UnOp:
+			if a, ok := x.X.(*ssa.Alloc); ok {
+				k, ok2 := 0, true
+				for _, r := range *a.Referrers() {
+					if st, ok := r.(*ssa.Store); ok && st.Addr == a {
+						k++
+						ok2 = ok2 && fresh(st.Val, depth+1)
+					}
+				}
+				return k > 0 && ok2
+			}
+		}
+		return false
+	}
+	var out []Result
+	n := 0
+	for _, f := range WithClosures(fn) {
+		for _, b := range f.Blocks {
+			for _, in := range b.Instrs {
+				var m ssa.Value
+				switch x := in.(type) {
+				case *ssa.MapUpdate:
+					m = x.Map
+				case *ssa.Call:
+					if b, ok := x.Call.Value.(*ssa.Builtin); ok && (b.Name() == "delete" || b.Name() == "clear") && len(x.Call.Args) > 0 {
+						if _, isMap := x.Call.Args[0].Type().Underlying().(*types.Map); isMap {
+							m = x.Call.Args[0]
+						}
+					}
+				}
+				if m == nil {
+					continue
+				}
+				n++
+				if !fresh(m, 0) {
+					out = append(out, one(id, kind, construct, Violated, n, w.InstrPos(in), fmt.Sprintf("%s: `%s` writes into a map that was not created here (`%s`)", what, clip(w.RenderInstr(in), 100), clip(w.RenderD(m, 4), 60))))
+				}
+			}
+		}
+	}
+	if n < min {
+		return []Result{one(id, kind, construct, Violated, n, w.Pos(fn.Pos()), fmt.Sprintf("vacuous: %d map writes found, expected at least %d", n, min))}
+	}
+	if len(out) == 0 {
+		out = append(out, one(id, kind, construct, Discharged, n, w.Pos(fn.Pos()), what))
+	}
+	return out
+}
